@@ -342,6 +342,7 @@ func (e c07) genSweep(seed, idx uint64) any {
 }
 
 func (e c07) Gen(r *R, tier string) any {
+	allowHugeOriginLists = false
 	observeUnknownAPI = true
 	if r.Run%4 == 3 {
 		return e.genSweep(r.Seed, r.Run/4)
